@@ -67,7 +67,7 @@ def _install_invariant(rep):
         state["evals"] += 1
         return 0 <= self.p <= 1
 
-    icontract.invariant(fraction_in_unit_interval, error=CompositionInvariantBroken)(Composition)
+    icontract.invariant(fraction_in_unit_interval, error=CompositionInvariantBroken, enabled=True)(Composition)  # enabled=True: also under python -O
     return state, CompositionInvariantBroken
 
 
